@@ -2,6 +2,7 @@
 //! aisverif — bounded exhaustive exploration of squidpickles/ais against reference models.
 //! See /verif/DESIGN.md. One binary, built three times (features std / alloc / none).
 mod canon;
+mod explore;
 mod json;
 mod par;
 mod props;
